@@ -6,6 +6,7 @@ package lang
 
 import (
 	"strconv"
+	"sync"
 
 	"github.com/lmorg/murex/zzverif/rt"
 )
@@ -135,4 +136,69 @@ func VerifC27Step() {
 		g, err := j.GetLatest()
 		rt.Assert(err == nil && g == np, "GetLatest is not the job just added")
 	}
+}
+
+// VerifC27Concurrent: the collector (started by a finishing job) runs while another goroutine adds
+// a new job and a third marks one more job as finished - every interleaving at the
+// synchronisation points (jobs.mutex, the per-process termination mutex). Afterwards the new
+// job can be looked up under exactly one id, every job that was running keeps its id, and an
+// id is reused only after every job with that id or a higher one has finished.
+func VerifC27Concurrent() {
+	n := rt.Param("n")
+	j, procs, fin := verifC27table(n)
+	rt.Reach("table-built")
+	finishing := -1 // nobody finishes meanwhile
+	if rt.Param("finisher") == 1 {
+		finishing = rt.Choice("finishing", n+1) - 1
+	}
+	np := new(Process)
+
+	rt.SymSched(true)
+	var wg sync.WaitGroup
+	wg.Add(2)
+	go func() {
+		defer wg.Done()
+		j.GarbageCollect()
+	}()
+	go func() {
+		defer wg.Done()
+		j.Add(np)
+	}()
+	if finishing >= 0 {
+		wg.Add(1)
+		go func() {
+			defer wg.Done()
+			procs[finishing].SetTerminatedState(true)
+		}()
+	}
+	wg.Wait()
+	rt.SymSched(false)
+	if finishing >= 0 {
+		fin[finishing] = true
+	}
+	rt.Reach("concurrent-done")
+
+	newid, hits := -1, 0
+	for id := 1; id <= n+1; id++ {
+		if g, err := j.Get(id); err == nil && g == np {
+			newid = id
+			hits++
+		}
+	}
+	rt.Assert(hits == 1, "a job added while the collector was running cannot be looked up (or has two ids)")
+	if hits != 1 {
+		return
+	}
+	for i := 0; i < n; i++ {
+		if i+1 >= newid {
+			rt.Assert(fin[i], "job id reused while a job with that id or a higher one is still running")
+		}
+	}
+	procs2 := append(append([]*Process{}, procs...), np)
+	fin2 := append(append([]bool{}, fin...), false)
+	if newid <= n {
+		procs2 = append(append([]*Process{}, procs[:newid-1]...), np)
+		fin2 = append(append([]bool{}, fin[:newid-1]...), false)
+	}
+	verifC27observe(j, procs2, fin2, "after concurrent gc/add")
 }
